@@ -4,7 +4,7 @@
 //verif:native-timeout 120000
 //verif:assume purge drivers end to end over in-memory stores (as C14's end-to-end harness: real PurgeBuildReverseIndex / PurgeDeleteUnused, openKV routed to the in-memory KV model symbolically, real pebble natively); faults: the solver picks one store call (any call on the metadata or blob store, reads and listings included) of the index build or of delete-unused that fails once (transient), or the mutating call at which the index build dies (fail-stop, landed or not) after which the build is resumed with --resume on a fresh local KV store
 //verif:assume world as in C14: two committed bundles sharing a file, the blobs of a deleted bundle, one bundle uploaded after the index build; index chunk size 2 (so several chunks exist); one variant with 12 keys at one key per chunk and a crash after the tenth chunk; listings returning full pages or at most two keys per page; in the crash variants the late bundle's blobs are written before the resume (an interrupted upload) and the bundle is committed after it
-//verif:cover VerifC13PurgeFaults upload-between-crash-and-resume short-listing-pages resumed-after-ten-chunks fault-in-build fault-in-delete build-crashed-and-resumed reported-failure-retried
+//verif:cover VerifC13PurgeFaults upload-between-crash-and-resume short-listing-pages resumed-after-ten-chunks fault-in-build fault-in-delete build-crashed-and-resumed reported-failure-retried late-upload-reuses-orphaned-blobs
 package core
 
 import (
@@ -53,6 +53,12 @@ func VerifC13PurgeFaults() {
 			WithPurgeIndexChunkSize(chunk), WithPurgeParallel(1), WithPurgeResumeIndex(resume))
 		return err
 	}
+	lateContent := "uploaded-after-the-index"
+	if vChoose("lateReusesOrphan", 2) == 1 {
+		// the late upload stores content whose blobs already exist, orphaned by the deleted bundle (older than the index)
+		lateContent = "orphaned-content"
+		vCover("late-upload-reuses-orphaned-blobs")
+	}
 	vNextSecond()
 	if mode == 0 || mode == 2 {
 		cr.install()
@@ -83,7 +89,7 @@ func VerifC13PurgeFaults() {
 		if chunkStored {
 			vCover("upload-between-crash-and-resume")
 			vNextSecond()
-			w.uploadBlobsOnly("uploaded-after-the-index")
+			w.uploadBlobsOnly(lateContent)
 		}
 		vNextSecond()
 		vAssert(build("kv-build-2", true) == nil, "resumed-build-succeeds")
@@ -102,7 +108,7 @@ func VerifC13PurgeFaults() {
 	}
 	// a bundle uploaded after the index build started
 	vNextSecond()
-	w.upload(map[string]string{"late": "uploaded-after-the-index"}, []string{"late"})
+	w.upload(map[string]string{"late": lateContent}, []string{"late"})
 	vNextSecond()
 	if mode == 1 {
 		cr.install()
